@@ -80,4 +80,75 @@ Proof.
   - assert (Hlen : length (from_disk (trials s) (disk s)) = length (trials s)) by (apply from_disk_length, (I_disk_len _ HI)).
     apply nth_error_None in Et0. assert (H : nth_error (from_disk (trials s) (disk s)) j = None) by (apply nth_error_None; lia). now rewrite H.
 Qed.
+
+(* the same for a projection of the payload that re-issuing leaves alone (random search: the values, not the metrics) *)
+Section Proj.
+Context {W : Type}.
+Variable p : V -> W.
+Variable reissue' : V -> V.
+Hypothesis reissue_p : forall v, p (reissue' v) = p v.
+Notation stepp := (step vdef score_fn populate hook_end hook_end_abort hook_reload reissue').
+
+Definition DSyncP (s : ost) : Prop :=
+  forall j t d, nth_error (trials s) j = Some t -> nth_error (disk s) j = Some d -> p (d_data d) = p (t_data t).
+
+Lemma dsyncp_init (a : A) : DSyncP (init a : ost).
+Proof. intros [|j] t d H; discriminate. Qed.
+
+Lemma dsyncp_upd (s : ost) id (t' : trial) ts' dk' :
+  DSyncP s -> ts' = upd id (fun _ => t') (trials s) -> dk' = upd id (fun _ => to_disk t') (disk s) ->
+  forall j t d, nth_error ts' j = Some t -> nth_error dk' j = Some d -> p (d_data d) = p (t_data t).
+Proof.
+  intros HD -> -> j t d Ht Hd. destruct (Nat.eq_dec id j) as [->|Hne].
+  - rewrite nth_upd_same in Ht. rewrite nth_upd_same in Hd. destruct (nth_error (trials s) j); [|discriminate]. destruct (nth_error (disk s) j); [|discriminate].
+    cbn in Ht, Hd. inversion Ht; inversion Hd; subst. reflexivity.
+  - rewrite nth_upd_other in Ht by exact Hne. rewrite nth_upd_other in Hd by exact Hne. eapply HD; eauto.
+Qed.
+
+Theorem dsyncp_step c (s : ost) o : abort_early c = false -> Inv s -> DSyncP s -> DSyncP (fst (stepp c s o)).
+Proof.
+  intros Hab HI HD. destruct o as [tu|id f|id es f|]; cbn [step].
+  - unfold do_create. destruct (alookup tu (ongoing s)); [destruct (trial_view vdef (trials s) t); exact HD|].
+    destruct (rev (retryq s)) as [|idr rq'].
+    + match goal with |- context [match ?X with (_, _) => _ end] => destruct X as [[a' st] v] end.
+      destruct st; cbn [fst]; try exact HD.
+      intros j t d Ht Hd. cbn [trials disk] in *.
+      destruct (Nat.lt_ge_cases j (length (trials s))) as [Hlt|Hge].
+      * rewrite nth_error_app1 in Ht by exact Hlt. rewrite nth_error_app1 in Hd by (rewrite (I_disk_len _ HI); exact Hlt). eapply HD; eauto.
+      * rewrite nth_error_app2 in Ht by exact Hge. rewrite nth_error_app2 in Hd by (rewrite (I_disk_len _ HI); exact Hge).
+        rewrite (I_disk_len _ HI) in Hd. destruct (j - length (trials s)) as [|[|k]]; cbn in Ht, Hd; try discriminate.
+        inversion Ht; inversion Hd; subst. reflexivity.
+    + cbn [fst]. intros j t d Ht Hd. cbn [trials disk] in *. destruct (Nat.eq_dec idr j) as [->|Hne].
+      * rewrite nth_upd_same in Ht. destruct (nth_error (trials s) j) as [t0|] eqn:Et0; [|discriminate]. cbn in Ht. inversion Ht; subst. cbn.
+        rewrite reissue_p. eapply HD; eauto.
+      * rewrite nth_upd_other in Ht by exact Hne. eapply HD; eauto.
+  - unfold do_update. destruct (nth_error (trials s) id) as [t0|]; cbn [fst]; [|exact HD].
+    unfold DSyncP; cbn [trials disk]; eapply (dsyncp_upd s id _ _ _ HD); reflexivity.
+  - unfold do_end. destruct (negb (existsb (fun kv => snd kv =? id) (ongoing s))); [exact HD|].
+    destruct (nth_error (trials s) id) as [t0|]; [|exact HD]. rewrite Hab.
+    repeat match goal with
+    | |- context [match ?X with ECompleted => _ | EInvalid => _ | EFailed => _ end] => destruct X
+    | |- context [match score_fn ?x with SNaN => _ | SVal _ => _ end] => destruct (score_fn x)
+    | |- context [Nat.leb ?a ?b] => destruct (Nat.leb a b)
+    | |- context [if streak ?a ?b ?d ?e then _ else _] => destruct (streak a b d e)
+    end; cbn [fst]; unfold DSyncP; cbn [trials disk]; eapply (dsyncp_upd s id _ _ _ HD); reflexivity.
+  - cbn [do_reload fst]. intros j t d Ht Hd. cbn [trials disk] in *.
+    destruct (nth_error (trials s) j) as [t0|] eqn:Et0.
+    + rewrite (from_disk_nth _ _ _ _ _ Et0 Hd) in Ht. inversion Ht; subst. reflexivity.
+    + assert (Hlen : length (from_disk (trials s) (disk s)) = length (trials s)) by (apply from_disk_length, (I_disk_len _ HI)).
+      apply nth_error_None in Et0. assert (j < length (from_disk (trials s) (disk s))) by (apply nth_error_Some; congruence). lia.
+Qed.
+
+Lemma reload_proj (s : ost) j : Inv s -> DSyncP s ->
+  option_map (fun t => p (t_data t)) (nth_error (trials (fst (do_reload hook_reload s))) j) = option_map (fun t => p (t_data t)) (nth_error (trials s) j).
+Proof.
+  intros HI HD. cbn [do_reload fst trials].
+  destruct (nth_error (trials s) j) as [t0|] eqn:Et0.
+  - destruct (nth_error (disk s) j) as [d|] eqn:Ed.
+    + rewrite (from_disk_nth _ _ _ _ _ Et0 Ed). cbn. f_equal. eapply HD; eauto.
+    + apply nth_error_None in Ed. rewrite (I_disk_len _ HI) in Ed. assert (j < length (trials s)) by (apply nth_error_Some; congruence). lia.
+  - assert (Hlen : length (from_disk (trials s) (disk s)) = length (trials s)) by (apply from_disk_length, (I_disk_len _ HI)).
+    apply nth_error_None in Et0. assert (H : nth_error (from_disk (trials s) (disk s)) j = None) by (apply nth_error_None; lia). now rewrite H.
+Qed.
+End Proj.
 End Sync.
